@@ -1,8 +1,6 @@
 package labels
 
 import (
-	"strings"
-
 	"github.com/dgraph-io/badger/v2"
 )
 
@@ -70,7 +68,8 @@ func (ll *Labels) GetKeys(cb func(k string) bool) {
 func (ll *Labels) GetValues(key string, cb func(v string) bool) {
 	err := ll.db.View(func(txn *badger.Txn) error {
 		opts := badger.DefaultIteratorOptions
-		opts.Prefix = []byte("v:" + key + ":")
+		prefix := "v:" + key + ":"
+		opts.Prefix = []byte(prefix)
 		opts.PrefetchValues = false
 		it := txn.NewIterator(opts)
 		defer it.Close()
@@ -78,8 +77,8 @@ func (ll *Labels) GetValues(key string, cb func(v string) bool) {
 			item := it.Item()
 			k := item.Key()
 			ks := string(k)
-			li := strings.LastIndex(ks, ":") + 1
-			shouldContinue := cb(ks[li:])
+			// the value is everything after the prefix, it may contain ':' itself
+			shouldContinue := cb(ks[len(prefix):])
 			if !shouldContinue {
 				return nil
 			}
